@@ -196,6 +196,8 @@ def main(argv=None):
     ap.add_argument('--budget', type=float, default=None, help='wall seconds for the exploration phase')
     ap.add_argument('--no-evidence', action='store_true')
     ap.add_argument('--trace', action='store_true')
+    ap.add_argument('--refresh-findings', action='store_true',
+                    help='maintenance (never used by registered commands): re-record stale replays of listed known findings')
     a = ap.parse_args(argv)
     if os.environ.get('PYTHONHASHSEED') != '0':
         os.environ['PYTHONHASHSEED'] = '0'
@@ -220,6 +222,7 @@ def main(argv=None):
     known = [f for f in load_findings() if f.get('property') == prop.ID and f.get('status') == 'known']
     known_sigs = {}
     known_pats = []
+    stale = []
     import re
     for f in known:
         known_sigs[f['signature']] = f
@@ -231,6 +234,7 @@ def main(argv=None):
             print(f'KNOWN-FINDING: property={prop.ID} {f["what_fails"]}', flush=True)
             ctx.known_seen[f['signature']] = ctx.known_seen.get(f['signature'], 0)
         else:
+            stale.append(f)
             print(f'note: known finding no longer reproduces from its replay: {f["signature"]} (got {sigs})', flush=True)
     printed_known = set(ctx.known_seen)
     prop.plan(ctx)
@@ -246,6 +250,32 @@ def main(argv=None):
         if ks not in printed_known:
             # the committed replay is stale (simulator changed) but exploration still meets the listed finding
             print(f'KNOWN-FINDING: property={prop.ID} {known_sigs[ks]["what_fails"]}', flush=True)
+    if a.refresh_findings:
+        import shutil
+        for f in stale:
+            pat = re.compile(f.get('signature_pattern') or re.escape(f['signature']))
+            cands = [(c, r, v, sg) for c, r, v, sg in ctx.violations if pat.fullmatch(sg)]
+            if not cands:
+                print(f'refresh: no exploration hit for {f["signature"]}')
+                continue
+            cands.sort(key=lambda x: (len(json.dumps(x[0], default=jdefault)), x[1]['stats']['steps']))
+            c, r, v, sg = cands[0]
+            mc, mr = minimise(prop, c, r, sg, jobs=a.jobs)
+            mv = next((x for x in mr.get('violations', []) if signature(prop.ID, mc, x) == sg), v)
+            path = write_replay(prop.ID, mc, mr, sg, mv)
+            ok1, _, _ = engine.replay_file(prop, path, quiet=True)
+            if ok1:
+                dst = os.path.join(engine.VERIF, f['replay'])
+                shutil.copy(path, dst)
+                # keep the listed signature: the entry is identified by its (pattern of) signature
+                with open(dst) as fh:
+                    doc = json.load(fh)
+                doc['signature'] = sg
+                with open(dst, 'w') as fh:
+                    json.dump(doc, fh, indent=1, default=jdefault)
+                print(f'refresh: re-recorded {f["replay"]} ({sg})')
+            else:
+                print(f'refresh: new replay does not reproduce for {f["signature"]}')
     reported = []
     for sig, lst in sorted(new.items()):
         lst.sort(key=lambda x: (len(json.dumps(x[0], default=jdefault)), x[1]['stats']['steps']))
